@@ -47,6 +47,34 @@ def gen_ops(tier, rng):
             yield "data.subset", dg.enc_op(ds, [(["obs", "fcst"], 0, "no", None), (["fcst"], 0, "all", None)])
         else:
             yield "data.subset", dg.enc_op(ds, dg.all_requests(ds, dims, rng, 12))
+    # a long -d list on sub-daily runs: 2-3 initialisations per day over four weeks, 14-22 requested dates in any order
+    # with repeats, so that days that were NOT asked for hold several times (seeded change C03g: np.isin(...,
+    # assume_unique=True) on the day of every time is wrong exactly there, and only when numpy takes its sort-based
+    # branch, i.e. for many dates; C11g: the times in the order the dates were typed)
+    for k in range(12 if tier == "quick" else 200):
+        base = 1325376000 + 86400 * rng.choice([0, 40, 300])
+        ndays = rng.choice([24, 28, 35])
+        hours = rng.choice([(0, 12), (0, 12), (0, 6, 18), (6, 18)])
+        times = [float(base + d * 86400 + h * 3600) for d in range(ndays) for h in hours if rng.random() < 0.95]
+        leads, locs = [0.0, 12.0][:rng.choice([1, 2])], [(1.0, 50.0, 10.0, 100.0)]
+        def field():
+            return [[[float(rng.choice([0, 1, 2, 3, 5])) for _ in locs] for _ in leads] for _ in times]
+        I = {"times": times, "leads": leads, "locs": locs, "fields": {"obs": field(), "fcst": field()}}
+        days = [float(base + d * 86400) for d in range(ndays)]
+        dates = rng.sample(days, rng.randint(14, min(22, ndays - 2)))
+        if rng.random() < 0.5:
+            dates.sort()
+        if rng.random() < 0.3:
+            dates.append(dates[0])
+        cfg = {"dates": dates}
+        if rng.random() < 0.3:
+            cfg["tods"] = [float(rng.choice(hours))]
+        ds = dg.DS([I], cfg)
+        dims = dg.oracle_dims(ds)
+        reqs = [(["obs", "fcst"], 0, "no", None), (["fcst"], 0, "all", None)]
+        if dims is not None and dims[0]:
+            reqs += dg.all_requests(ds, dims, rng, 6)
+        yield "data.subset.longdates", dg.enc_op(ds, reqs)
     if tier == "thorough":
         keys = ["times", "leads", "dates", "tods", "l", "lx", "lat", "lon", "elev"]
         for _ in range(20):
